@@ -26,6 +26,7 @@ ASSUMPTIONS = [
     'handlers run in registration order (all_at_once lifecycle), so warnings and patch actions are ordered by registration',
 ]
 BUDGET = {'quick': 400, 'thorough': 20000}
+FUZZ_RUNS = {'thorough': 8000}     # inputs per process of the coverage-guided stage (tools/fuzz.py), 16 processes
 MAX_SHARDS = 16
 
 KEYS = st.sampled_from(['a', 'b', 'c', 'a/b', 'm~n', '', 'x y', 'ключ', '0'])
